@@ -1,15 +1,13 @@
 SPECIFICATION Spec
-CONSTANT MaxLines = 3
+CONSTANT MaxLines = 2
 CONSTANT ModelNums = {1, 2}
-CONSTANT KeyIds = {1, 2, 3}
+CONSTANT KeyIds = {1, 3}
 CONSTANT Occs = {40, 60}
 CONSTANT PointIds = {1, 2, 4}
 CONSTANT IcNulls = {"?"}
 CONSTANT OcNulls = {"?"}
-CONSTANT DedupKeyIncludesModel = TRUE
+CONSTANT DedupKeyIncludesModel = FALSE
 CONSTANT ClashWithinModelOnly = TRUE
 CONSTANT BothNullMarkers = TRUE
-INVARIANT NullMarkersInv
-INVARIANT CascadeOk
-INVARIANT PipelineAgrees
+INVARIANT RequestedModelReturned
 CHECK_DEADLOCK FALSE
